@@ -426,6 +426,29 @@ func TestC20WindowSafety(t *testing.T) {
 	if minRotS-W < 2016 {
 		t.Fatalf("C20: window not safe at its start: a server started at now-offset = %d rotates, reports down to now-%d are still admitted and would lie before the new window", minRotS, W)
 	}
+	// after a long downtime (weeks to years) the start must bring the window all
+	// the way up to the clock, whole weeks at a time
+	for _, weeks := range []int64{3, 5, 8, 40, int64(pick(60, 300))} {
+		off := int64(s.S.VerifSnapshot().Offset)
+		glow.SetCurrentTimeslot(uint32(off))
+		if err := s.Close(); err != nil {
+			t.Fatalf("C20: close: %v", err)
+		}
+		now := off + 2016*weeks + 100 + int64(weeks%7)*250
+		glow.SetCurrentTimeslot(uint32(now))
+		if s, err = world.StartServer(dir); err != nil {
+			t.Fatalf("C20: restart %d weeks later: %v", weeks, err)
+		}
+		ev.Eval(1)
+		off2 := int64(s.S.VerifSnapshot().Offset)
+		if (off2-off)%2016 != 0 || now-off2 >= 4000 || now < off2 {
+			t.Fatalf("C20: a server started %d weeks (%d slots) after its window start has its window at %d, clock %d: now-offset = %d, the catch-up must end within 4000 slots of the clock", weeks, now-off, off2, now, now-off2)
+		}
+		if now-off2-W < 0 && off2 != off {
+			t.Fatalf("C20: catch-up at start went too far: window starts at %d, reports down to %d are still admitted", off2, now-W)
+		}
+		ev.NonTrivial(fmt.Sprintf("c20|downtime|%d", weeks))
+	}
 	if maxNoRotS+P+1+W >= 4032+2016 {
 		// a start that does not catch up leaves the loop to do it; the first check comes at once
 		t.Fatalf("C20: a server started at now-offset = %d does not catch up", maxNoRotS)
